@@ -138,8 +138,12 @@ where
         if let Some(ref this) = ctx.this {
             Ok(This(T::from_value(this)?))
         } else {
-            let arg = arg_value_from_context(ctx)
-                .map_err(|_| ExecutionError::missing_argument_or_target())?;
+            // Only a missing argument means "no target"; an error raised while evaluating the
+            // argument is the call's error and must not be replaced.
+            if ctx.arg_idx >= ctx.args.len() {
+                return Err(ExecutionError::missing_argument_or_target());
+            }
+            let arg = arg_value_from_context(ctx)?;
             Ok(This(T::from_value(&arg)?))
         }
     }
